@@ -8,6 +8,49 @@ PY = '/venv/bin/python'
 
 # id -> (design_ref, technique, level text, level note)
 CHECKS = {
+    'C01': ('DESIGN.md 4/C01', 'deviation-bounded enumeration of model/configuration points; each generated shell is '
+            'compiled against a mock Dezyne runtime and an auto-generated driver enumerates every (port, event, argument '
+            'position) in both travel directions inside the compiled program',
+            'Every point within 1 (quick) / 2 (thorough) deviations of the base point in the 16-dimensional model space; '
+            'per program every event fired once with pairwise distinct (and same-typed) argument values while recorders sit on '
+            'all events of all ports: exactly one hit on the same-named event of the same-named port, arguments, reply, out and '
+            'inout values intact; under AddressSanitizer.',
+            'Trusted: mock dzn:: runtime (vf/cxx/mock), mock dzn-code header generator (modelgen), driver generator (lab.py), '
+            'g++ 12. Model space bounds: <=2 ports per direction, extern-typed formals.'),
+    'C02': ('DESIGN.md 4/C02', 'same compiled programs as C01; dispatcher involvement measured on a deterministic step pump '
+            '(posted counter, in-dispatch flag, deferred queueing with overwritten arguments and scrubbed stack, ASan '
+            'use-after-return)',
+            'Per exposed port of every model point: accessor return type Sts<>/Mts<>, port identity, and per event whether it '
+            'travels through the dispatcher exactly as configured; deferred requires out-events must have copied their arguments.',
+            'Trusted: as C01. "Blocks the caller until the dispatcher has run it" is additionally explored under the scheduler in C11.'),
+    'C04': ('DESIGN.md 4/C04', 'explicit-state exploration of multi-client histories inside the compiled program: every '
+            'claim/release/other history replayed on a fresh shell with an out-event probe after each operation; un-pruned '
+            'sweep + BFS pruned on (reference state, probe)',
+            'All multi-client model points within 1 (quick) / 2 (thorough) deviations of the multi-client base point (naming '
+            'variants incl. claim named Release, every granting value, second provides port, namespaces...) x 1..2 / 1..3 '
+            'clients x all histories to depth 3 / 4 un-pruned and BFS to depth 6 / 8, judged by a three-valued reference model.',
+            'Trusted: as C01 plus the reference model in gen_c04 (vf/lab.py). Situations with two simultaneous holders are '
+            'accepted under any of three readings of the statement.'),
+    'C06': ('DESIGN.md 4/C06', 'BFS over inclusion states (sets of already included headers) of the returned headers, each '
+            'transition one translation unit through g++ (clang++ in thorough); plus second-TU link/run and multi-prefix link',
+            'Corner-case points (global namespace, empty interface, no ports, multi-client, mixed semantics, both prefixes, '
+            'import, system, injected); quick: all inclusion states of size <=1 + full set (59 TUs per point), thorough: the '
+            'complete 2^7 x 7 graph on 3 points and every point within 1 deviation, also with clang++; the shell used from a '
+            'second TU; three shells with two prefixes in one program; quoted-include closure.',
+            'Trusted: compilers; the mock runtime headers include many standard headers, so missing standard includes are '
+            'only judged for headers that include no dzn/ header.'),
+    'C09': ('DESIGN.md 4/C09', 'same compiled programs as C01; the shell is constructed for every subset of '
+            '{dispatcher, runtime, service} in the user locator and identities/contents are asserted',
+            'Every model point within 1 / 2 deviations x 8 locator contents x both origins: throw verdict, locator / '
+            'dispatcher / runtime identity seen by the component in its constructor, exact locator content, user locator '
+            'unmodified, Locator() accessor present/absent; -Wreorder findings on facility members.',
+            'Trusted: as C01. The mock component reads its locator in the constructor like real Dezyne components.'),
+    'C10': ('DESIGN.md 4/C10', 'same compiled programs as C01; fault enumeration inside the program: every single binding left '
+            'out one at a time on a fresh shell',
+            'Every model point within 1 / 2 deviations x every event the user or the wrapped component must bind (multi-client: '
+            'x 1..3 registered clients): FinalConstruct must throw a runtime_error; fully bound must return and set the parent; '
+            'registration after final construction must throw.',
+            'Trusted: as C01; binding_error derives from std::runtime_error as in the Dezyne runtime.'),
     'C03': ('DESIGN.md 4/C03', 'exhaustive enumeration of selection pairs x port sets per side, each run through '
             'PortsSemanticsCfg.match and end-to-end through Builder.build, judged by a reference resolver',
             'Every (sts, mts) pair of selections over 3 (quick) / 4 (thorough) own names + unknown + other-side + injected '
